@@ -278,6 +278,35 @@ def label_contract_part(res, prop="C14"):
     res.part("set_label_contract", strings=n, alphabet=alphabet, max_length=4)
 
 
+def container_ownership_part(res):
+    """every container class: two instances made with default sub-circuits (and the class defaults) share no connection or element
+    object; changing an element inside one instance's default sub-circuit changes neither the other instance nor the class default"""
+    from pyimpspec.circuit.base import Container
+    from pyimpspec.circuit.registry import get_elements
+    n = 0
+    for sym, cls in sorted(get_elements(private=True).items()):
+        if not (isinstance(cls, type) and issubclass(cls, Container)):
+            continue
+        a, b = cls(), cls()
+        for key, dflt in cls.get_default_subcircuits().items():
+            n += 1
+            res.case(("ownership", sym, key), nontrivial=dflt is not None)
+            sa, sb = a.get_subcircuits()[key], b.get_subcircuits()[key]
+            if dflt is None:
+                continue
+            repro = (f"from pyimpspec.circuit.registry import get_elements\ncls = get_elements(private=True)[{sym!r}]\na, b = cls(), cls()\n"
+                     f"sa, sb, d = a.get_subcircuits()[{key!r}], b.get_subcircuits()[{key!r}], cls.get_default_subcircuits()[{key!r}]\n"
+                     f"assert sa is not sb and sa is not d and sb is not d, 'default sub-circuit object shared'\n"
+                     f"ids = lambda c: {{id(e) for e in c.get_elements(recursive=True)}}\nassert not (ids(sa) & ids(sb)) and not (ids(sa) & ids(d)), 'elements shared'")
+            if sa is sb or sa is dflt or sb is dflt:
+                res.fail(f"container-ownership:{sym}:{key}:shared-connection", "Container.__init__", f"{sym}(): the default sub-circuit {key} is the same object in two instances / in the class default", repro)
+                continue
+            ids = lambda c: {id(e) for e in c.get_elements(recursive=True)}     # noqa: E731
+            if ids(sa) & ids(sb) or ids(sa) & ids(dflt):
+                res.fail(f"container-ownership:{sym}:{key}:shared-elements", "Container.__init__", f"{sym}(): elements of the default sub-circuit {key} are shared between instances / with the class default", repro)
+    res.part("container_ownership", pairs=n)
+
+
 def main(a):
     import pyimpspec  # noqa
     from pyimpspec.circuit.registry import get_elements
@@ -296,6 +325,7 @@ def main(a):
             for key, fn, what, repro in fails:
                 res.fail(key, fn, what, repro)
     label_contract_part(res)
+    container_ownership_part(res)
     return res
 
 
